@@ -37,6 +37,12 @@ NEEDS = {
  "C05-c": ("C05", "process_agenda skips prediction of a symbol already predicted in the current Earley set and with it the nullable-advance step: a named nullable rule directly after the dot in two items of one set loses the empty derivation in the second (start: a \"c\" | a \"d\"; a: \"x\"?)", ["C05"]),
  "C08-c": ("C08", "normalize_integer_bounds drops floor() on integer maximum / exclusiveMaximum and relies on `as i64` (truncation toward zero): a negative non-integer upper bound admits trunc(max) and integer-free intervals compile", ["C08"]),
  "C09-c": ("C09", "gen_json_array: n_to_add = max_items.unwrap_or(min_items).max(prefix_len): maxItems smaller than the number of prefixItems admits up to len(prefixItems) elements", ["C09", "C06"]),
+ "C10-c": ("C10", "TokenizerSlice::trie_apply walks an un-applied sibling slice with trie_without_children: tokens of that sibling's sub-slices are dropped; needs a slice node with >= 3 children, two subsumed, the third not and owning a sub-slice (the default JSON slices never reach it)", ["C10"]),
+ "C11-c": ("C11", "compute_bias stores the mask in bias_cache before the special-token range pass and the lexer-level EOS allowance: a second mask in the same state (or later in the same greedy lexeme) lacks the special token / EOS; needs a grammar position where a special token is admissible", ["C11", "C12", "C19"]),
+ "C13-c": ("C13", "TokTrie::chop_tokens returns the healing-suffix length instead of the byte span of the removed tokens: process_prompt loses text and the mask after ff tokens is computed for the wrong position; needs a multi-byte vocabulary where the longest extendable suffix of the forced text starts inside a canonical token", ["C13", "C01"]),
+ "C15-c": ("C15", "uf_find's path compression starts at map[e]: the head of a 2+-hop alias chain keeps pointing at an intermediate alias and expand_shortcuts asserts; needs a JSON $ref -> $ref -> schema chain whose head is used twice (or head and link once each)", ["C15", "C06"]),
+ "C17-c": ("C17", "llg_par_compute_mask zero-fills the caller buffer only when a sample mask exists: at the stop step (or on error) the buffer keeps its previous contents and the EOS bit is OR-ed into them; needs the parallel API at the stop step with a non-zero buffer", ["C17"]),
+ "C19-c": ("C19", "negated_token_ranges: `end <= current` instead of `end < current`: an excluded range ending exactly at the first not-yet-covered id is skipped, so <[^0]> allows 0, <[^65,66]> allows 66", ["C19"]),
 }
 ids = sys.argv[1:] or sorted(NEEDS)
 for sid in ids:
